@@ -7,6 +7,7 @@ import (
 	"io"
 	"os"
 	"runtime"
+	"strings"
 
 	"github.com/datastax/go-cassandra-native-protocol/compression/lz4"
 	"github.com/datastax/go-cassandra-native-protocol/compression/snappy"
@@ -286,4 +287,13 @@ func streamSource(rt *rapid.T, data []byte, label string) (src io.Reader, unread
 	}
 	b := bytes.NewReader(data)
 	return b, b.Len, kind
+}
+
+// harnessTrouble: a session that could not be carried out for a reason on the harness's side (its own raw peer timed out,
+// a listener could not be opened) is not evidence about the library: it becomes a skip, counted in the evidence.
+func harnessTrouble(verdict string) string {
+	if strings.HasPrefix(verdict, "FAIL:") && strings.Contains(firstLine(verdict), "harness:") {
+		return "SKIP: " + strings.TrimPrefix(verdict, "FAIL: ")
+	}
+	return verdict
 }
